@@ -76,7 +76,7 @@ def literal_fn(tr, spelled):
     import codecs
     text = codecs.decode(spelled[1:-1], "unicode_escape")
     key = "tracelit:" + text
-    names = tr.stdlib.text.setdefault("tracelit:names", "static void js_char(char c); void verif_ph(int which); void verif_err_too_many(void);\n")
+    names = tr.stdlib.text.setdefault("tracelit:names", "static void js_char(char c); void verif_ph(int which); void verif_err_too_many(void); extern verif_os verif_cerr;\n")
     idx = getattr(tr, "_tracelits", None)
     if idx is None:
         idx = tr._tracelits = {}
@@ -87,11 +87,11 @@ def literal_fn(tr, spelled):
         if text.startswith("Tracing Error: Too many"):
             body.append("verif_err_too_many();")
         if text.startswith('"ph": "M"'):
-            body.append("if (os->kind == 1) verif_ph('M');")
+            body.append("if (os != &verif_cerr) verif_ph('M');")
         if text.startswith('"ph": "C"'):
-            body.append("if (os->kind == 1) verif_ph('C');")
+            body.append("if (os != &verif_cerr) verif_ph('C');")
         steps = " ".join("js_char(%d);" % ord(ch) for ch in text)
-        tr.stdlib.text[key] = "static verif_os *%s(verif_os *os) /* %s */ { %s if (os->kind == 1) { %s } return os; }\n" % (name, spelled.replace("*/", "* /"), " ".join(body), steps)
+        tr.stdlib.text[key] = "static verif_os *%s(verif_os *os) /* %s */ { %s if (os != &verif_cerr) { %s } return os; }\n" % (name, spelled.replace("*/", "* /"), " ".join(body), steps)
     return idx[text]
 
 
@@ -209,7 +209,7 @@ def trace_unit():
                        ext_dtor={OFS: "verif_os_close", STACK: "verif_stack_dtor"}))
     JS = "g_depth == 1 && !g_in_str && g_last == ','" if not os.environ.get("VERIF_TRACE_NOJS") else "1"
     CNT = "g_objs == g_evt_read + g_ph_M + g_ph_C" if not os.environ.get("VERIF_TRACE_NOCNT") else "1"
-    STREAMS = "fout.kind == 1 && verif_cerr.kind == 2 && self->threadTraceMutex.g_held != 0"
+    STREAMS = "self->threadTraceMutex.g_held != 0"
     GHOST = ["g_depth", "g_in_str", "g_last", "g_objs", "g_ph_M", "g_ph_C", "g_evt_read", "g_open", "g_nev", "g_entry", "g_tel"]
     SZ = "sizeof(TraceEvent)"
     pre = """
@@ -227,7 +227,7 @@ def trace_unit():
              "  tr_saveLog(&o_self, the_file, in_processName);", "  __CPROVER_assert(0, \"VERIF_CANARY reachable end of harness\");\n}"]
         return "\n".join(L) + "\n", []
     U.fn("tr_saveLog", harness=harness, timeout=1500, solver=["--sat-solver", "cadical"], flags=["--unwind", "16", "--unwinding-assertions"],
-         requires=["$0->threadTraceMutex.g_held == 0", "$0->threadTrace.n >= 1 && $0->threadTrace.n <= 1000000", "verif_cerr.kind == 2", "__verif_exc == 0",
+         requires=["$0->threadTraceMutex.g_held == 0", "$0->threadTrace.n >= 1 && $0->threadTrace.n <= 1000000", "__verif_exc == 0",
                    "g_depth == 0 && !g_in_str && g_last == 0 && g_objs == 0 && g_ph_M == 0 && g_ph_C == 0 && g_evt_read == 0",
                    "g_cap <= %d && ((g_cap == 0 && g_events == 0) || (g_cap > 0 && __CPROVER_r_ok(g_events, g_cap * %s) && __CPROVER_POINTER_OFFSET(g_events) == 0))" % (MAXE, SZ), "g_some_begin.name != 0"],
          assigns=GHOST + ["$0->threadTraceMutex.g_held"],
@@ -239,7 +239,7 @@ def trace_unit():
                         invariant=["__CPROVER_same_object(__begin4, __end4)", "__CPROVER_POINTER_OFFSET(__begin4) <= __CPROVER_POINTER_OFFSET(__end4)",
                                    JS, CNT, "g_ph_M == __begin2 + 1 + (processName != 0 ? 1 : 0)", STREAMS, "beginEvents.depth == g_open", "beginEvents.depth == 0 || beginEvents.top == &g_some_begin"],
                         decreases="__CPROVER_POINTER_OFFSET(__end4) - __CPROVER_POINTER_OFFSET(__begin4)"),
-                4: dict(assigns=["beginEvents"], invariant=["beginEvents.depth == 0 || beginEvents.top == &g_some_begin", "verif_cerr.kind == 2"], decreases="beginEvents.depth")},
+                4: dict(assigns=["beginEvents"], invariant=["beginEvents.depth == 0 || beginEvents.top == &g_some_begin"], decreases="beginEvents.depth")},
          ensures={
              "the_log_is_a_complete_JSON_array__brackets_balanced_separators_in_place": "g_depth == 0 && !g_in_str && g_last == 'v'",
              "every_recorded_event_is_written_as_exactly_one_object_of_its_own": CNT,
@@ -294,7 +294,7 @@ void verif_stack_pop(verif_stack *s) { __CPROVER_assert(s->depth > 0, "TRACE pop
 TraceEvent **verif_stack_top(verif_stack *s) { __CPROVER_assert(s->depth > 0, "TRACE top of an empty begin-event stack"); return &s->top; }
 void verif_stack_dtor(verif_stack *s) { }
 /* ---- the output stream: literals drive a JSON structure automaton (brackets balance, separator discipline, strings closed) */
-void verif_os_open(verif_os *os, const char *name) { os->kind = 1; }
+void verif_os_open(verif_os *os, const char *name) { }
 void verif_os_close(verif_os *os) { }
 static void js_char(char c)
 {
@@ -321,17 +321,17 @@ void verif_err_too_many(void) { __CPROVER_assert(0, "TRACE 'too many end events'
 verif_os *verif_out_cstr(verif_os *os, const char *p)
 {
   __CPROVER_assert(p != 0, "TRACE a null C string is never streamed (it would put the stream into its failed state)");
-  if (os->kind == 1) __CPROVER_assert(g_in_str, "TRACE dynamic text is only written inside a JSON string");
+  if (os != &verif_cerr) __CPROVER_assert(g_in_str, "TRACE dynamic text is only written inside a JSON string");
   return os;
 }
 verif_os *verif_out_val(verif_os *os, int ignored)
 {
-  if (os->kind == 1 && !g_in_str) { __CPROVER_assert(g_last == '[' || g_last == ',' || g_last == ':', "TRACE a number is written only where a value may start"); g_last = 'v'; }
+  if (os != &verif_cerr && !g_in_str) { __CPROVER_assert(g_last == '[' || g_last == ',' || g_last == ':', "TRACE a number is written only where a value may start"); g_last = 'v'; }
   return os;
 }
 verif_os *verif_out_seek_back(verif_os *os, long off)
 {
-  __CPROVER_assert(os->kind == 1 && off == -1 && !g_in_str && g_depth == 1 && g_last == ',', "TRACE the one character taken back is the comma after the last element of the top-level array");
+  __CPROVER_assert(os != &verif_cerr && off == -1 && !g_in_str && g_depth == 1 && g_last == ',', "TRACE the one character taken back is the comma after the last element of the top-level array");
   g_last = 'v';
   return os;
 }
